@@ -22,13 +22,13 @@ import io, json, os, random, subprocess, sys
 from fractions import Fraction as Fr
 import numpy as np
 
-sys.path.insert(0, '/repo')
+sys.path.insert(0, __import__('os').environ.get('DEEPROB_REPO', '/repo'))
 from deeprob.spn.structure.leaf import Bernoulli, Categorical, Gaussian, Uniform, Isotonic
 from deeprob.spn.structure.cltree import BinaryCLT
 from deeprob.spn.structure.node import Sum, Product, assign_ids, topological_order
 from deeprob.spn.structure.io import save_spn_json, load_spn_json, save_binary_clt_json, load_binary_clt_json
 
-EXE = os.environ.get('DEEPROB_DRIVER', '/verif/lean/.lake/build/bin/driver')
+EXE = os.environ.get('DEEPROB_DRIVER', __import__('os').path.join(__import__('os').path.dirname(__import__('os').path.dirname(__import__('os').path.dirname(__import__('os').path.abspath(__file__)))), 'lean', '.lake', 'build', 'bin', 'driver'))
 SEED = int(sys.argv[1]) if len(sys.argv) > 1 else 20260929
 rnd = random.Random(SEED)
 nrs = np.random.RandomState(SEED % (2 ** 32))
